@@ -282,7 +282,7 @@ pub fn check_huge_string(h: &HugeString, st: &mut Stats) -> Check {
         _ => format!("com.example.Foo -> {long}:\n    void m() -> x\ncom.example.After -> b:\n    void y() -> z\n"),
     };
     st.evaluations += 1;
-    st.class("file with a single string at the 2^21-byte length-prefix boundary");
+    st.class("file with a single string at the 2^21 / 2^28-byte length-prefix boundaries");
     st.nontrivial(h.len as u64 * 3 + h.which as u64);
     let ast = crate::model::lineparse::to_ast(text.as_bytes()).ok_or_else(|| Fail::new("harness", "huge-string mapping not recognised"))?;
     let model = Model::new(&ast);
@@ -316,9 +316,12 @@ pub fn run(ctx: &Ctx) -> Report {
             huge.push(HugeString { len, which });
         }
     }
+    // 5-byte LEB128 prefix (2^28 bytes and more); 1.3 GiB of memory per case
+    huge.push(HugeString { len: (1 << 28) - 1, which: 0 });
+    huge.push(HugeString { len: 1 << 28, which: 1 });
     if ctx.tier == crate::engine::Tier::Thorough {
-        huge.push(HugeString { len: (1 << 28) - 1, which: 0 });
-        huge.push(HugeString { len: 1 << 28, which: 1 });
+        huge.push(HugeString { len: (1 << 28) + 1, which: 2 });
+        huge.push(HugeString { len: 1 << 29, which: 0 });
     }
     rep.run_enum("huge-strings", &huge, check_huge_string);
     super::scale::run(&mut rep, ctx, "C09");
